@@ -393,8 +393,8 @@ func canonNumber(lit string) string {
 	return s
 }
 
-func emitSign(w *CaseWriter, r *areq) {
-	mt := mediaTypes[r.Fmt]
+// reqTerm renders the abstract request (Model/Sign.v sreq) and the oracles of the signer's chain
+func (r *areq) reqTerm() (string, string, string) {
 	// canonical order of the attributes in the abstract request (their order is not observable)
 	sorted := append([]aattr{}, r.Attrs...)
 	sort.SliceStable(sorted, func(i, j int) bool { return sorted[i].Key.sortKey() < sorted[j].Key.sortKey() })
@@ -421,6 +421,12 @@ func emitSign(w *CaseWriter, r *areq) {
 	}
 	reqTerm := fmt.Sprintf("(SReq %d %d %d %d %s %s %s %d %s %s %d 1)", r.Fmt, payloadCanonID(r.Fmt, r.Payload), payloadKind(r.Payload), strID(r.Cty), cB(ctyOK(r.Cty)),
 		cZ(timeZ(r.Time)), cZ(timeZ(r.Expiry)), schemeCodeReq(r.Scheme), signer, cList(attrTerms), agent)
+	return reqTerm, sf, ss
+}
+
+func emitSign(w *CaseWriter, r *areq) {
+	mt := mediaTypes[r.Fmt]
+	reqTerm, sf, ss := r.reqTerm()
 	// run the implementation
 	out, verify, tbsOK, objOK := 0, "None", true, true
 	var panicMsg, errMsg string
